@@ -36,7 +36,10 @@ type c06Pkt struct {
 	data     []byte
 }
 
-type c06Bus struct{ ipcp, v6, lcp []c06Pkt }
+type c06Bus struct {
+	ipcp, v6, lcp []c06Pkt
+	probe         string // result of the LCP own-magic probe of THIS case (no package-level state)
+}
 
 func (b *c06Bus) Publish(topic string, ev events.Event) {
 	if topic != events.TopicEgress {
@@ -197,8 +200,6 @@ func c06ShowAddr(ip net.IP) string {
 // Brings the session's real LCP to Opened by packets, from a fresh object (s.up) or from Opened (the
 // subscriber renegotiates: the real This-Layer-Down callback onLCPDown runs, which sends Down to the NCPs),
 // and lets the real onLCPUp start authentication.  Returns false when LCP did not reach Opened.
-var c06LCPProbe string
-
 func c06LCPOpened(s *SessionState, bus *c06Bus, first bool) bool {
 	lastReq := func() *c06Pkt {
 		for i := len(bus.lcp) - 1; i >= 0; i-- {
@@ -218,27 +219,27 @@ func c06LCPOpened(s *SessionState, bus *c06Bus, first bool) bool {
 		}
 		// LCP's own identity on the wire: the magic number our Configure-Request announces must be the one
 		// ProcessConfReq compares with; a subscriber looping it back must get a Configure-Nak carrying it
-		c06LCPProbe = "no-magic-announced"
+		bus.probe = "no-magic-announced"
 		for i := 0; i+1 < len(r.data) && int(r.data[i+1]) >= 2 && i+int(r.data[i+1]) <= len(r.data); i += int(r.data[i+1]) {
 			if r.data[i] == 5 && r.data[i+1] == 6 {
 				m := r.data[i : i+6]
 				before := len(bus.lcp)
 				s.lcp.FSM().Input(ppp.ConfReq, 9, append([]byte(nil), m...))
-				c06LCPProbe = "no-answer"
+				bus.probe = "no-answer"
 				for _, p := range bus.lcp[before:] {
 					switch {
 					case p.code == ppp.ConfNak && len(p.data) == 6 && p.data[0] == 5 && p.data[1] == 6 &&
 						binary.BigEndian.Uint32(p.data[2:]) != 0:
 						// which number the Nak suggests is the implementation's choice
-						c06LCPProbe = "ok"
+						bus.probe = "ok"
 					case p.code == ppp.ConfAck:
-						c06LCPProbe = "ACKED-OWN-MAGIC"
+						bus.probe = "ACKED-OWN-MAGIC"
 					default:
-						c06LCPProbe = fmt.Sprintf("answer-%d", p.code)
+						bus.probe = fmt.Sprintf("answer-%d", p.code)
 					}
 				}
 				if binary.BigEndian.Uint32(m[2:]) != s.lcp.LocalConfig().Magic {
-					c06LCPProbe = "ANNOUNCED-MAGIC-IS-NOT-LOCAL"
+					bus.probe = fmt.Sprintf("ANNOUNCED-MAGIC-IS-NOT-LOCAL:%08x/%08x", binary.BigEndian.Uint32(m[2:]), s.lcp.LocalConfig().Magic)
 				}
 			}
 		}
@@ -362,7 +363,7 @@ func c06Sess(f []string) string {
 	}
 	first := drain() // "scr:..." when startNCP started IPCP, "-" when it did not
 	if !strings.HasPrefix(a0, "restore:") {
-		first = "lcp=" + c06LCPProbe + " " + first
+		first = "lcp=" + bus.probe + " " + first
 	}
 	parts = append(parts, first+" a="+c06ShowAddr(s.IPv4Address)+" pa="+c06ShowAddr(s.ipcp.PeerConfig().PeerAddress))
 	for _, ev := range f[1:] {
